@@ -40,7 +40,7 @@ CODE = 0x10000
 L1_TABLE = 0x4000
 L2_TABLE = 0x3000
 # physical ranges that User-mode code has no write permission for, per protection setting (programmed below)
-USER_PROTECTED = {'off': [], 'mpu': [(0x1000, 0x3000), (0x11800, 0x12000)], 'mmu': [(0x1000, 0x8000)], 'mmu-ld': None}
+USER_PROTECTED = {'off': [], 's2': [], 'mpu': [(0x1000, 0x3000), (0x11800, 0x12000)], 'mmu': [(0x1000, 0x8000)], 'mmu-ld': None}
 
 ADDRISH = [0x0, 0x4, 0x100, 0x104, 0xFFC, 0x1000, 0x1004, 0x1FFC, 0x2000, 0x2ffc, 0x7FF8, 0x7FFC, 0x7FFE, 0x8000, 0x8004, 0x8FFC, 0x9000,
            0x10800, 0x11000, 0x11004, 0x11FF8, 0x11FFC, 0x12000, 0xFFFFF000, 0xFFFFF800, 0xFFFFFFE0, 0xFFFFFFF0,
@@ -72,6 +72,8 @@ class Ctx:
             self._program_mmu()
         elif prot == 'mmu-ld':
             self._program_mmu_ld()
+        elif prot == 's2':
+            self._program_s2()
         self.base = observe.snapshot(cpu)
 
     def _program_mpu(self):
@@ -180,6 +182,20 @@ class Ctx:
         r.hmair0 = 0xFF440400
         r.hmair1 = 0xFF440400
         r.hsctlr.m = 1
+
+    def _program_s2(self):
+        """stage-2 tables only (stage 1 off): VTCR.T0SZ = 0, SL0 = 1 -> four 1 GB level-1 entries at VTTBR; the first and the
+        last gigabyte are Normal read/write blocks mapped flat, the two in the middle are invalid (an access there from a
+        Non-secure PL1/PL0 mode is a stage-2 translation fault taken to Hyp mode).  HCR.VM is left 0 here: the workload
+        switches stage 2 on after it has placed its operands."""
+        cpu = self.cpu
+        r = cpu.registers
+        assert self.cfg['have_virt_ext'] and self.cfg['have_lpae']
+        T = 0x4000
+        attrs = (1 << 10) | (0b11 << 6) | (0b1111 << 2) | 0b01
+        M.poke(cpu, T, (0x00000000 | attrs).to_bytes(8, 'little') + bytes(16) + (0xC0000000 | attrs).to_bytes(8, 'little'))
+        r.vttbr = T
+        r.vtcr.value = (1 << 31) | (1 << 6)
 
     def fresh(self):
         M.activate(self.cpu)
